@@ -3,6 +3,7 @@ use crate::engine::{ReplayEntry, Run};
 pub mod c01;
 pub mod c02;
 pub mod c03;
+pub mod c04;
 pub mod c05;
 pub mod c08;
 pub mod c09;
@@ -26,6 +27,7 @@ pub fn all() -> Vec<Property> {
         Property { id: "C01", run: c01::run, replays: c01::replays },
         Property { id: "C02", run: c02::run, replays: c02::replays },
         Property { id: "C03", run: c03::run, replays: c03::replays },
+        Property { id: "C04", run: c04::run, replays: c04::replays },
         Property { id: "C05", run: c05::run, replays: c05::replays },
         Property { id: "C08", run: c08::run, replays: c08::replays },
         Property { id: "C09", run: c09::run, replays: c09::replays },
